@@ -22,6 +22,28 @@ import (
 	"cuelang.org/go/internal"
 )
 
+// exactContext does not round. Sums and products of integers are integers,
+// however many digits they have.
+var exactContext = apd.BaseContext.WithPrecision(0)
+
+// arithContext returns the context for additions and multiplications of xs:
+// exact if all of them are integers, CUE's default decimal context otherwise.
+func arithContext(xs ...*internal.Decimal) *apd.Context {
+	for _, x := range xs {
+		if x.Form != apd.Finite {
+			return &internal.BaseContext.Context
+		}
+		if x.Exponent < 0 {
+			var frac apd.Decimal
+			x.Modf(nil, &frac)
+			if !frac.IsZero() {
+				return &internal.BaseContext.Context
+			}
+		}
+	}
+	return exactContext
+}
+
 // Avg returns the average value of a non empty list xs.
 func Avg(xs []*internal.Decimal) (*internal.Decimal, error) {
 	if len(xs) == 0 {
@@ -29,8 +51,9 @@ func Avg(xs []*internal.Decimal) (*internal.Decimal, error) {
 	}
 
 	s := apd.New(0, 0)
+	ctx := arithContext(xs...)
 	for _, x := range xs {
-		_, err := internal.BaseContext.Add(s, x, s)
+		_, err := ctx.Add(s, x, s)
 		if err != nil {
 			return nil, err
 		}
@@ -78,8 +101,9 @@ func Min(xs []*internal.Decimal) (*internal.Decimal, error) {
 // Product returns the product of a non empty list xs.
 func Product(xs []*internal.Decimal) (*internal.Decimal, error) {
 	d := apd.New(1, 0)
+	ctx := arithContext(xs...)
 	for _, x := range xs {
-		_, err := internal.BaseContext.Mul(d, x, d)
+		_, err := ctx.Mul(d, x, d)
 		if err != nil {
 			return nil, err
 		}
@@ -112,6 +136,7 @@ func Range(start, limit, step *internal.Decimal) ([]*internal.Decimal, error) {
 
 	var vals []*internal.Decimal
 	num := start
+	ctx := arithContext(start, step)
 	for {
 		if !step.Negative && num.Cmp(limit) != -1 {
 			break
@@ -123,7 +148,7 @@ func Range(start, limit, step *internal.Decimal) ([]*internal.Decimal, error) {
 
 		vals = append(vals, num)
 		d := apd.New(0, 0)
-		_, err := internal.BaseContext.Add(d, step, num)
+		_, err := ctx.Add(d, step, num)
 		if err != nil {
 			return nil, err
 		}
@@ -135,8 +160,9 @@ func Range(start, limit, step *internal.Decimal) ([]*internal.Decimal, error) {
 // Sum returns the sum of a list non empty xs.
 func Sum(xs []*internal.Decimal) (*internal.Decimal, error) {
 	d := apd.New(0, 0)
+	ctx := arithContext(xs...)
 	for _, x := range xs {
-		_, err := internal.BaseContext.Add(d, x, d)
+		_, err := ctx.Add(d, x, d)
 		if err != nil {
 			return nil, err
 		}
